@@ -158,7 +158,7 @@ class Wide(Component):
     rule = ">=2 requested attributes in non-table order on some side and >=1 output row"
 
     def examples(self, tier):
-        return 10 if tier == "quick" else 60
+        return 20 if tier == "quick" else 300
 
     def strategy(self, tier):
         return wide_case(tier)
